@@ -163,6 +163,10 @@ class BeltStore(Store):
 
         """
         # Check if there's enough space to reserve
+        # one item enters the belt at a time: while a granted space reservation is still unused the next
+        # request waits, otherwise two holders could both enter in the same instant, on top of each other
+        if self.reservations_put:
+            return
         if self.items:
             if len(self.reservations_put) + len(self.items) +len(self.ready_items) < self.capacity:
                 if not self.noaccumulation_mode_on or (self.noaccumulation_mode_on and self.one_item_inserted==False):
